@@ -339,7 +339,13 @@ def finish(prop, level, tier, rep, t0, coverage, assumptions, replay_fn=None):
         property_id=prop, tier=tier, seed=env.SEED, level=level,
         coverage=jsonable(cov), assumptions=list(assumptions),
         wall_s=round(time.time() - t0, 2), violations=len(confirmed))
-    validate_evidence(ev)
+    try:
+        validate_evidence(ev)
+    except HarnessError:
+        # vacuous coverage is a harness error only if nothing was found: when (almost) every
+        # case failed, the counters of successful evaluations are naturally empty
+        if not confirmed:
+            raise
     # runs against a MODIFIED copy of the library (DD_REPO set by the tools that apply mutants
     # and seeds) must not overwrite the evidence of the real tree
     evdir = os.environ.get('VERIF_EVIDENCE_DIR') or os.path.join(env.VERIF_DIR, 'evidence')
